@@ -224,6 +224,16 @@ def check(facts, rep, tier, cfg):
                         rep.ok("C07.R5", "establish-only-requested", where, "replace reachable only when the slot is Requested")
                     else:
                         rep.bad("C07.R5", "establish-only-requested", where, "an Acknowledge can overwrite a slot that is not in the Requested state")
+    # ---- R6 initial credit = the window the other side advertised (re-use of C03.R3/R4)
+    rep.rule("C07.R6", "each side's initial send credit is the window carried by the peer's Connect / Acknowledge, and the window it "
+                       "advertises is its own (= C03.R3/R4)")
+    sub = type(rep)(rep.prop, rep.tier, rep.config)
+    rules_c03.check_r3_r4(facts, sub, crate, Inter(facts))
+    for i in sub.instances:
+        rep.ok("C07.R6", i["key"], i["where"], i["detail"], nontrivial=False)
+    for v in sub.violations:
+        rep.bad("C07.R6", v["key"].split("/", 1)[1], v["where"], v["msg"])
+
 
 
 def rules_establish_ok(facts, b, tr, site):
